@@ -15,11 +15,11 @@ THEOREMS = ["TLVerif.Props.C38." + t for t in [
     "completions_le_setups", "at_most_once", "completed_is_unregistered",
     "inFlight_eq_sentCount", "inFlight_panic_unreachable", "no_panic", "inFlight_eq_sentCount_trace", "no_panic_trace",
     "unsent_never_written", "written_was_set_up", "request_written_at_most_once", "shutdown_closes_when_drained",
-    "early_response_panics",
+    "shutdown_drained_is_closed", "shutdown_open_has_sent_call", "reconnect_sends_queued", "early_response_panics",
     "no_panic_unguarded_fails", "qid_reuse_panics", "close_completes_all", "disconnect_completes_sent",
     "closed_rejects_setup", "request_written_only_when_pending", "panic_sites_modelled"]]
 
-ALPHA = ["s1:-", "s2:-", "s1:f", "s2:p", "s1:c", "x1", "x2", "r1:7", "r2:8", "e1:3", "F", "S", "C", "D", "d0", "d1", "G", "X", "B"]
+ALPHA = ["s1:-", "s2:-", "s1:f", "s2:p", "s1:c", "x1", "x2", "r1:7", "r2:8", "e1:3", "F", "S", "C", "D", "d0", "d1", "G", "X", "B", "W"]
 
 
 def gen_random(rng, n, wild):
@@ -93,10 +93,65 @@ def gen_random(rng, n, wild):
         elif r < 97:
             ops.append("X")
             conn = False
-        elif r < 99:
+        elif r < 98:
             ops.append("B")
+        elif r < 99:
+            ops.append("W")
+            conn = True
+            pend = {q: "s" for q in pend}
         else:
             ops.append("U")
+    return ops
+
+
+def gen_shutdown(rng):
+    """graceful shutdown: calls in flight, the server's FIN, calls queued after it, the in-flight calls end one by one —
+    by response, RPC error, explicit cancel or local deadline (a cancel of a call whose deadline has passed) —
+    then the connect loop runs (W) and the story may go on on the new connection"""
+    ops = ["C"]
+    q = 0
+    inflight, queued = [], []
+
+    def setup():
+        nonlocal q
+        q += 1
+        fl = rng.choice(["-", "-", "p", "p", "u", "c", "pc", "f", "uc"])
+        ops.append("s%d:%s" % (q, fl))
+        return q
+    for _ in range(rng.range(1, 3)):
+        inflight.append(setup())
+    ops.append("S")
+    if rng.chance(1, 3):
+        queued.append(setup())
+    if rng.chance(1, 8):
+        ops.append("B")
+    ops.append("F")
+    for rnd in range(rng.range(1, 3)):
+        todo = list(inflight)
+        rng.shuffle(todo)
+        while todo or rng.chance(1, 4):
+            r = rng.below(10)
+            if r < 5 and todo:
+                x = todo.pop()
+                inflight.remove(x)
+                how = rng.below(4)
+                ops.append("x%d" % x if how < 2 else ("r%d:%d" % (x, 100 + x) if how == 2 else "e%d:%d" % (x, x)))
+            elif r < 7:
+                queued.append(setup())
+            elif r < 8:
+                ops.append("S")
+            elif r < 9:
+                ops.append(rng.choice(["W", "F", "x%d" % rng.range(1, q + 1)]))
+            else:
+                ops.append(rng.choice(["S", "B", "r%d:9" % rng.range(1, q + 1)]))
+        ops.append("W")
+        inflight, queued = queued, []
+        if rng.chance(1, 2):
+            ops.append("F")
+        if not inflight:
+            break
+    if rng.chance(1, 3):
+        ops += rng.choice([["X", "G"], ["D", "W"], ["S"], ["W"]])
     return ops
 
 
@@ -114,6 +169,8 @@ def oracle_cc(c, line, out):
     prev_calls = {}
     fresh = True
     wellbehaved = True
+    loop_protocol = True
+    prev_flags = "000001"
     owner = 0
     for i, op in enumerate(ops):
         k = op[0]
@@ -157,7 +214,7 @@ def oracle_cc(c, line, out):
                     want = ("r%d:%s" % (dq, res[2:])) if res.startswith("ok") else ("e%d:%s" % (dq, res[2:]))
                     if op != want:
                         c.oracle_fail(line, "call %d (query %d) received %s but the packet of this step was %s: not its own response" % (o, dq, res, op), line)
-                elif k not in ("d", "G"):
+                elif k not in ("d", "G", "W"):
                     c.oracle_fail(line, "connection-closed result %s delivered by step %s" % (e, op), line)
                 elif res == "se" and prev_calls.get(dq, (0, "?"))[1] != "s":
                     c.oracle_fail(line, "side-effect error for a request that was not sent", line)
@@ -189,7 +246,7 @@ def oracle_cc(c, line, out):
             c.oracle_fail(line, "inFlight negative", line)
         # closing / disconnecting completes calls
         flags = st.get("f", "000000")
-        if k in ("d", "G") and (k == "d" or flags[5] == "0"):
+        if k == "d" or (k == "G" and flags[5] == "0") or (op == "W" and prev_flags[3] == "0"):
             for q, (o, us) in prev_calls.items():
                 if us == "s" and o not in completed:
                     c.oracle_fail(line, "sent call %d still pending after the connection was torn down (%s)" % (o, op), line)
@@ -199,7 +256,20 @@ def oracle_cc(c, line, out):
                 c.oracle_fail(line, "calls remain registered after close", line)
         if k == "s" and flags[5] == "0" and "ret0" in evs:
             c.oracle_fail(line, "call accepted by a closed client connection", line)
+        # graceful shutdown: goConnect enters run()/setClientConn only after continueRunningImpl reset isShutdown
+        if k == "C" and prev_flags[0] == "1":
+            loop_protocol = False
+        if loop_protocol and flags[0] == "1" and flags[3] == "1" and n == 0:
+            stuck = sorted(o for (o, us) in calls.values() if us == "u")
+            c.oracle_fail(line, "after op %d (%s) the connection is in graceful shutdown (server FIN processed), nothing is in flight and it "
+                          "is still open: nobody will close it, so calls queued on it%s are never sent and never complete, and the "
+                          "server's CloseWait waits for ever" % (i, op, (" (calls %s)" % stuck) if stuck else ""), line)
+        if op == "W" and loop_protocol and flags[5] == "1" and n == 0 and any(us == "u" for (_, us) in calls.values()):
+            o = min(o for (o, us) in calls.values() if us == "u")
+            c.oracle_fail(line, "call %d never completes: after a full turn of the connect loop (bounded wait) it is still queued unsent, "
+                          "nothing is in flight and the client is open" % o, line)
         prev_calls = calls
+        prev_flags = flags
 
 
 def run(c):
@@ -221,6 +291,15 @@ def run(c):
     lines = replay_lines(c, "rpccalls.cc")
     # witnesses of the two guarded panics: must still be what the code does
     lines += ["rpccalls.cc s5:-,r5:1", "rpccalls.cc s1:-,x1,s1:-,C,S", "rpccalls.cc C,s1:-,s2:-,S,r2:5,r1:4,S"]
+    # graceful shutdown drained by a local deadline, a call queued after the FIN, the connect loop
+    lines += ["rpccalls.cc C,s1:p,S,F,s2:-,x1,W", "rpccalls.cc C,s1:p,s2:-,S,F,s3:-,r2:7,x1,W,r3:1"]
+    for pre in (["C", "s1:p", "s2:-", "S", "F"], ["C", "s1:pc", "S", "F", "s2:-"], ["C", "s1:u", "s2:p", "S", "s3:p", "F"]):
+        alpha3 = ["x1", "x2", "r1:7", "r2:8", "e1:3", "s8:-", "s9:p", "S", "W", "F", "D", "d1", "x3", "C", "r8:1"]
+        for n in range(1, (4 if c.thorough else 3) + 1):
+            for p in product(alpha3, n):
+                lines.append("rpccalls.cc " + ",".join(pre + p))
+    for i in range(30000 if c.thorough else 5000):
+        lines.append("rpccalls.cc " + ",".join(gen_shutdown(rng)))
     maxlen = 4 if c.thorough else 3
     for n in range(0, maxlen + 1):
         for p in product(ALPHA, n):
